@@ -91,8 +91,9 @@ ROLES = {
     "drm": [("N", r"DriftMap$"), ("T", r"DriftMap")],
     "e1": [("A", r"FokkerPlanckMap::FokkerPlanckMap", "e1"), ("U", ("t_damp", "fs", "steps"))],
     "fpm": [("N", r"FokkerPlanckMap$"), ("T", r"SourceMap \*$")],
-    "wake_impedance": [("T", r"shared_ptr<(vfps::)?Impedance>"), ("I", r"makeImpedance\("), ("U", ("spaced_bins", "gap")), ("I", r"\?")],
-    "rdtn_impedance": [("T", r"shared_ptr<(vfps::)?Impedance>"), ("I", r"makeImpedance\("), ("I", r"CXXDefaultArgExpr"), ("U", ("padded_bins",))],
+    "wake_impedance": [("T", r"shared_ptr<(vfps::)?Impedance>"), ("I", r"makeImpedance\("), ("U", ("spaced_bins", "gap")), ("I", r"\?"), ("NT",), ("I", r"use_csr|collimator|impedance_file"),
+                       ("NI", r"CXXDefaultArgExpr")],
+    "rdtn_impedance": [("T", r"shared_ptr<(vfps::)?Impedance>"), ("I", r"makeImpedance\("), ("I", r"CXXDefaultArgExpr"), ("U", ("padded_bins",)), ("NNT",)],
     "rdtn_field": [("T", r"^(vfps::)?ElectricField$")],
     "wake_field": [("T", r"ElectricField \*$"), ("N", r"ElectricField$")],
     "wkm": [("T", r"WakeKickMap \*$"), ("N", r"WakePotentialMap$")],
@@ -186,6 +187,16 @@ class MainVars:
                 o = A.declref(x["c"][0])
                 if o is not None and o.get("decl") in self.vars:
                     self.vars[o["decl"]]["inc"] = True
+            if x.get("k") == "BinaryOperator" and x.get("op") in ("==", "!=") and len(x.get("c", [])) == 2:
+                for a_, b_ in ((x["c"][0], x["c"][1]), (x["c"][1], x["c"][0])):
+                    if A.strip(b_).get("k") in ("CXXNullPtrLiteralExpr", "GNUNullExpr"):
+                        d_ = A.declref(a_)
+                        if d_ is None:
+                            for y in A.walk(a_):
+                                if y.get("k") == "DeclRefExpr" and y.get("decl") in self.vars:
+                                    d_ = y
+                        if d_ is not None and d_.get("decl") in self.vars:
+                            self.vars[d_["decl"]]["nulltest"] = True
             if x.get("k") == "WhileStmt":
                 for c in A.walk(x["cond"]):
                     if c.get("k") == "BinaryOperator" and c.get("op") == "<":
@@ -246,6 +257,12 @@ def _match(sig, v, mv, resolved):
         if sig[1] not in resolved:
             return None
         return resolved[sig[1]] in v["assigned_from"]
+    if k == "NT":
+        return v.get("nulltest", False)
+    if k == "NNT":
+        return not v.get("nulltest", False)
+    if k == "NI":
+        return not re.search(sig[1], v["init_text"])
     if k == "LC":
         return v["lc"]
     if k == "LB":
@@ -315,6 +332,69 @@ def infer(prog):
     return mv, resolved, report
 
 
+def _normalise_increments(fn):
+    """`v = v + 1;` and `v += 1;` on an integer local as statements are `v++;` (one spelling for the counters the rules follow)"""
+    for x in A.walk(fn["body"]):
+        for key in ("c",):
+            lst = x.get(key)
+            if not isinstance(lst, list) or x.get("k") != "CompoundStmt":
+                continue
+            for i_, st in enumerate(lst):
+                n = A.strip(st, casts=False) if isinstance(st, dict) else None
+                if not isinstance(n, dict):
+                    continue
+                tgt = None
+                if n.get("k") == "CompoundAssignOperator" and n.get("op") == "+=" and A.strip(n["c"][1]).get("value") == 1 and A.strip(n["c"][1]).get("k") == "IntegerLiteral":
+                    tgt = n["c"][0]
+                elif n.get("k") == "BinaryOperator" and n.get("op") == "=":
+                    r = A.strip(n["c"][1])
+                    l = A.declref(n["c"][0])
+                    if l is not None and r.get("k") == "BinaryOperator" and r.get("op") == "+":
+                        a, b = A.strip(r["c"][0]), A.strip(r["c"][1])
+                        for p_, q_ in ((a, b), (b, a)):
+                            if (A.declref(p_) or {}).get("decl") == l.get("decl") and q_.get("k") == "IntegerLiteral" and q_.get("value") == 1:
+                                tgt = n["c"][0]
+                d = A.declref(tgt) if tgt is not None else None
+                if d is None or not any(t_ in (d.get("dtype") or d.get("ctype") or "") for t_ in ("int", "uint", "long", "size_t", "short")):
+                    continue
+                lst[i_] = {"k": "UnaryOperator", "op": "++", "prefix": False, "id": n["id"], "line": n.get("line"), "col": n.get("col", 0), "eline": n.get("eline", n.get("line")),
+                           "type": n.get("type"), "ctype": n.get("ctype"), "c": [tgt], "was": A.show(n)}
+
+
+def _normalise_ifassign(fn):
+    """`T v; if (c) v = a; else v = b;` (v declared just before, both branches only assign it) is `T v = c ? a : b;`"""
+    def only_assign(branch, decl):
+        st = branch
+        if st is None:
+            return None
+        if st.get("k") == "CompoundStmt":
+            if len(st.get("c", [])) != 1:
+                return None
+            st = st["c"][0]
+        n = A.strip(st, casts=False)
+        if n.get("k") == "BinaryOperator" and n.get("op") == "=" and (A.declref(n["c"][0]) or {}).get("decl") == decl:
+            return n["c"][1]
+        if n.get("k") == "CXXOperatorCallExpr" and n.get("op") == "=" and len(n.get("args", [])) == 2 and (A.declref(n["args"][0]) or {}).get("decl") == decl:
+            return n["args"][1]
+        return None
+    for x in A.walk(fn["body"]):
+        if x.get("k") != "CompoundStmt":
+            continue
+        lst = x.get("c", [])
+        i = 0
+        while i + 1 < len(lst):
+            d, f = lst[i], lst[i + 1]
+            if d.get("k") == "DeclStmt" and len(d.get("decls", [])) == 1 and d["decls"][0].get("k") == "VarDecl" and "init" not in d["decls"][0] and \
+                    f.get("k") == "IfStmt" and f.get("else") is not None and not f.get("init"):
+                v = d["decls"][0]
+                a, b = only_assign(f.get("then"), v["decl"]), only_assign(f.get("else"), v["decl"])
+                if a is not None and b is not None:
+                    v["init"] = {"k": "ConditionalOperator", "id": f["id"], "line": f["line"], "col": f.get("col", 0), "eline": f.get("eline", f["line"]),
+                                 "type": v.get("type"), "ctype": v.get("ctype"), "cond": f["cond"], "then": a, "else": b, "c": [f["cond"], a, b], "from_if": True}
+                    del lst[i + 1]
+            i += 1
+
+
 def _normalise_loops(fn):
     """`for (; cond; step) body` with an abort test in its condition is the simulation loop written as a for: give it the shape the
     rules know, `while (cond) { body; step; }` (same statements, same ids; the CFG is untouched)"""
@@ -348,6 +428,51 @@ def _splice_helpers(prog):
     if not g:
         return []
     done = []
+    # value helpers: a function of main's own file whose whole body is `return <call-free expression>;` stands for that expression
+    import copy as _copy
+    from .indexmap import _rule_vocabulary as _vocab
+    for x in list(A.walk(fn["body"])):
+        if x.get("k") == "CallExpr" and x.get("callee_in_root") and x.get("callee_sig"):
+            f = prog.copies.get((x["callee_sig"], fn.get("unit"))) or prog.functions.get(x["callee_sig"])
+            short = (x.get("callee") or "").split("::")[-1].split("<")[0]
+            if f is None or f is fn or not f.get("body") or f.get("file") != fn.get("file") or short in _vocab() or len(f["params"]) != len(x.get("args", [])):
+                continue
+            body = f["body"]
+            if len(body.get("c", [])) != 1 or body["c"][0].get("k") != "ReturnStmt" or not body["c"][0].get("c"):
+                continue
+            rexpr = body["c"][0]["c"][0]
+            if any(y.get("k") in ("CallExpr", "CXXMemberCallExpr", "CXXOperatorCallExpr", "CXXConstructExpr", "CXXNewExpr", "LambdaExpr") for y in A.walk(rexpr)):
+                continue
+            pmap0 = {p_["decl"]: a_ for p_, a_ in zip(f["params"], x["args"])}
+            k0 = len(done) + 1
+
+            def sub(n):
+                if isinstance(n, list):
+                    return [sub(c) for c in n]
+                if not isinstance(n, dict):
+                    return n
+                if n.get("k") == "DeclRefExpr" and n.get("decl") in pmap0:
+                    inner = _copy.deepcopy(pmap0[n["decl"]])
+                    return {"k": "ParenExpr", "id": -(abs(n["id"]) * 100 + k0), "line": x.get("line"), "col": 0, "eline": x.get("line"), "type": n.get("type"), "ctype": n.get("ctype"),
+                            "c": [inner], "param": n.get("name")}
+                o = {}
+                for kk, v in n.items():
+                    if kk == "id" and isinstance(v, int):
+                        o[kk] = -(abs(v) * 100 + k0)
+                    elif kk in ("line", "eline"):
+                        o[kk] = x.get("line")
+                    elif isinstance(v, (dict, list)):
+                        o[kk] = sub(v)
+                    else:
+                        o[kk] = v
+                return o
+            rep = sub(rexpr)
+            keep = {"id": x["id"], "line": x.get("line"), "col": x.get("col", 0), "eline": x.get("eline", x.get("line")), "type": x.get("type"), "ctype": x.get("ctype")}
+            x.clear()
+            x.update(keep)
+            x.update({"k": "ParenExpr", "c": [rep], "named": short})
+            done.append("value helper " + short)
+    spliced_lambda_ids = set()
     lam_cfg = {e["lambda"]: e.get("cfg") for e in fn.get("lambda_cfgs", []) if e.get("cfg")}
     for round_ in range(6):
         byid, parent = A.index(fn)
@@ -367,8 +492,16 @@ def _splice_helpers(prog):
         for x in A.walk(fn["body"]):
             if x["id"] in lam_body_ids:
                 continue
+            inplace_lambda = None
             params = body = cfg = args = name = None
             if x.get("k") == "CXXOperatorCallExpr" and x.get("op") == "()" and x.get("args"):
+                l0 = A.strip(x["args"][0], casts=False)
+                while l0.get("k") in ("MaterializeTemporaryExpr", "CXXBindTemporaryExpr", "ImplicitCastExpr", "CXXConstructExpr", "CXXFunctionalCastExpr", "ParenExpr") and \
+                        len(l0.get("args", l0.get("c", []))) == 1:
+                    l0 = A.strip((l0.get("args") or l0.get("c"))[0], casts=False)
+                if l0.get("k") == "LambdaExpr" and l0.get("id") in lam_cfg and l0.get("body") is not None and l0.get("params") is not None and l0["id"] not in spliced_lambda_ids:
+                    params, body, cfg, args, name = l0["params"], l0["body"], lam_cfg[l0["id"]], x["args"][1:], "lambda called in place"
+                    inplace_lambda = l0
                 d = A.declref(x["args"][0])
                 if d is not None and d.get("decl") in lambdas:
                     lm = lambdas[d["decl"]]
@@ -381,21 +514,54 @@ def _splice_helpers(prog):
                     params, body, cfg, args, name = f["params"], f["body"], f["cfg"], x["args"], x["callee"]
             if body is None:
                 continue
-            # must be a statement of its own
+            # must be a statement of its own, or the whole right-hand side of a declaration / assignment statement
             top = x
             p_ = parent.get(top["id"])
-            while p_ is not None and p_.get("k") in ("ExprWithCleanups", "ImplicitCastExpr", "ParenExpr", "CXXBindTemporaryExpr", "MaterializeTemporaryExpr"):
+            while p_ is not None and p_.get("k") in ("ExprWithCleanups", "ImplicitCastExpr", "ParenExpr", "CXXBindTemporaryExpr", "MaterializeTemporaryExpr",
+                                                      "CXXConstructExpr", "CXXFunctionalCastExpr") and len(p_.get("args", p_.get("c", []))) == 1:
                 top, p_ = p_, parent.get(p_["id"])
-            if p_ is None or p_.get("k") != "CompoundStmt" or not any(c is top for c in p_.get("c", [])):
-                continue
-            # values returned are not followed; recursion is not followed
-            if any(y.get("k") == "ReturnStmt" and y.get("c") for y in A.walk(body)):
-                continue
-            target = (x, top, p_, params, body, cfg, args, name)
+            ret_to = None
+            has_value = any(y.get("k") == "ReturnStmt" and y.get("c") for y in A.walk(body))
+            if p_ is not None and p_.get("k") == "CompoundStmt" and any(c is top for c in p_.get("c", [])):
+                if has_value:
+                    continue            # value of a statement-level call is dropped only for void helpers
+            elif p_ is not None and has_value and p_.get("k") in ("BinaryOperator", "CXXOperatorCallExpr") and p_.get("op") == "=":
+                ops_ = p_.get("c") if p_.get("k") == "BinaryOperator" else p_.get("args")
+                if not ops_ or len(ops_) != 2 or ops_[1] is not top or A.declref(ops_[0]) is None:
+                    continue
+                ret_to = ("assign", ops_[0])
+                top2, pp = p_, parent.get(p_["id"])
+                while pp is not None and pp.get("k") in ("ExprWithCleanups", "ImplicitCastExpr", "ParenExpr"):
+                    top2, pp = pp, parent.get(pp["id"])
+                if pp is None or pp.get("k") != "CompoundStmt" or not any(c is top2 for c in pp.get("c", [])):
+                    continue
+                top, p_ = top2, pp
+            else:
+                # T v = call();
+                vd = None
+                for st_ in A.walk(fn["body"]):
+                    if st_.get("k") == "DeclStmt" and len(st_.get("decls", [])) == 1 and st_["decls"][0].get("init") is top:
+                        vd = st_
+                if vd is None or not has_value:
+                    continue
+                pp = parent.get(vd["id"])
+                if pp is None or pp.get("k") != "CompoundStmt" or not any(c is vd for c in pp.get("c", [])):
+                    continue
+                ret_to = ("decl", vd)
+                top, p_ = vd, pp
+            if has_value:
+                # every return must carry a value and be the last thing on its path (tail position): checked structurally
+                rets_ = [y for y in A.walk(body) if y.get("k") == "ReturnStmt"]
+                if any(not y.get("c") for y in rets_) or any(y.get("k") in ("ForStmt", "WhileStmt", "DoStmt", "CXXForRangeStmt") and
+                                                              any(z.get("k") == "ReturnStmt" for z in A.walk(y)) for y in A.walk(body)):
+                    continue
+            target = (x, top, p_, params, body, cfg, args, name, ret_to, inplace_lambda)
             break
         if target is None:
             break
-        x, top, par, params, body, cfg, args, name = target
+        x, top, par, params, body, cfg, args, name, ret_to, inplace_lambda = target
+        if inplace_lambda is not None:
+            spliced_lambda_ids.add(inplace_lambda["id"])
         k = len(done) + 1
         off = _ID_OFFSET * k
         pmap = {p_["decl"]: a_ for p_, a_ in zip(params, args)}
@@ -442,7 +608,37 @@ def _splice_helpers(prog):
         new_body = clone(body, 0)
         new_body["spliced_from"] = name
         lst = par["c"]
-        lst[[i for i, c in enumerate(lst) if c is top][0]] = new_body
+        pos_ = [i for i, c in enumerate(lst) if c is top][0]
+        if ret_to is None:
+            lst[pos_] = new_body
+        else:
+            if ret_to[0] == "decl":
+                vdecl = ret_to[1]["decls"][0]
+                lhs_proto = {"k": "DeclRefExpr", "name": vdecl["name"], "qname": vdecl["name"], "decl": vdecl["decl"], "dkind": "Var", "dtype": vdecl.get("type"),
+                             "type": vdecl.get("type"), "ctype": vdecl.get("ctype"), "local": True, "static_member": False, "c": [], "line": x.get("line"), "col": 0, "eline": x.get("line")}
+            else:
+                lhs_proto = A.strip(ret_to[1])
+            cnt = [0]
+
+            def ret2asg(n):
+                if isinstance(n, list):
+                    return [ret2asg(c) for c in n]
+                if not isinstance(n, dict):
+                    return n
+                if n.get("k") == "ReturnStmt" and n.get("c"):
+                    cnt[0] += 1
+                    lhs = dict(lhs_proto)
+                    lhs["id"] = -(abs(n["id"]) * 10 + 7)
+                    return {"k": "BinaryOperator", "op": "=", "id": n["id"], "line": n.get("line"), "col": n.get("col", 0), "eline": n.get("eline", n.get("line")),
+                            "type": lhs_proto.get("type"), "ctype": lhs_proto.get("ctype"), "c": [lhs, ret2asg(n["c"][0])], "from_return": True}
+                return {kk: (ret2asg(v) if isinstance(v, (dict, list)) else v) for kk, v in n.items()}
+            new_body = ret2asg(new_body)
+            if ret_to[0] == "decl":
+                vdecl = ret_to[1]["decls"][0]
+                vdecl["init_spliced"] = vdecl.pop("init")
+                lst[pos_:pos_ + 1] = [ret_to[1], new_body]
+            else:
+                lst[pos_] = new_body
         # control-flow graph
         blocks = g["blocks"]
         hit = None
@@ -508,6 +704,8 @@ def canonicalise_main(prog):
         spliced = ["failed: %r" % (e,)]
     try:
         _normalise_loops(prog.fn("main"))
+        _normalise_increments(prog.fn("main"))
+        _normalise_ifassign(prog.fn("main"))
     except Exception:
         pass
     try:
@@ -568,13 +766,32 @@ def _inline_named_steps(mv, role_decls):
         if decl in role_decls or "init" not in d or asg.get(decl, 0) != 0:
             continue
         ty = (d.get("ctype") or "")
-        if not ty.startswith("const ") or ty.replace("const ", "").strip() not in _SCALAR:
-            continue
+        init = d["init"]
         if d["name"] in ROLES:
             continue
-        init = d["init"]
-        if any(y.get("k") in ("CallExpr", "CXXMemberCallExpr", "CXXOperatorCallExpr", "CXXConstructExpr", "CXXNewExpr", "LambdaExpr") for y in A.walk(init)):
+        is_scalar = ty.replace("const ", "").strip() in _SCALAR
+        is_objref = ty.rstrip().endswith("&") and not ty.rstrip().endswith("&&") and "vfps::" in ty
+        if is_objref:
+            # PhaseSpace& grid = *grid_t1;  -  another name for the object: only dereference / get() / address-of over one variable
+            okp = True
+            for y in A.walk(init):
+                k_ = y.get("k")
+                if k_ in ("DeclRefExpr", "ParenExpr", "ImplicitCastExpr", "MaterializeTemporaryExpr", "ExprWithCleanups", "MemberExpr"):
+                    continue
+                if k_ == "UnaryOperator" and y.get("op") in ("*", "&"):
+                    continue
+                if k_ == "CXXOperatorCallExpr" and y.get("op") in ("*", "->"):
+                    continue
+                if k_ == "CXXMemberCallExpr" and (y.get("callee") or "").endswith("::get"):
+                    continue
+                okp = False
+            if not okp:
+                continue
+        elif not is_scalar:
             continue
+        elif any(y.get("k") in ("CallExpr", "CXXMemberCallExpr", "CXXOperatorCallExpr", "CXXConstructExpr", "CXXNewExpr", "LambdaExpr") and
+                 not (y.get("k") == "CXXMemberCallExpr" and (y.get("callee") or "").startswith("std::") and y.get("callee_const")) for y in A.walk(init)):
+            continue            # (const queries of std containers, v.size(), are allowed: they have no effect and no object of main behind them)
         # only names introduced inside the simulation part (the loop and what follows); set-up locals keep their names
         cand[decl] = d
     if not cand:
@@ -585,7 +802,10 @@ def _inline_named_steps(mv, role_decls):
             loop_line = x["line"]
     if loop_line is None:
         return []
-    cand = {k_: d for k_, d in cand.items() if d.get("line", 0) >= loop_line}
+    from .indexmap import _rule_vocabulary
+    voc = _rule_vocabulary()
+    # names from the simulation part always; set-up names only when no rule refers to them
+    cand = {k_: d for k_, d in cand.items() if d.get("line", 0) >= loop_line or d["name"] not in voc}
     done = []
     for _ in range(3):
         changed = False
